@@ -91,6 +91,43 @@ def run(ctx):
         if p.errors:
             ctx.fail("conforming-document-reports-error:%s" % p.errors[0][1], "a conforming document records a parse error",
                      {"input": text[:600], "errors": repr(p.errors[:3])})
+    # character references in a conforming document: a numeric reference is conforming exactly when the standard's
+    # numeric-character-reference-end state reports nothing for it; named references with their semicolon always are
+    def ref_allowed(n):
+        if n == 0 or n > 0x10FFFF or 0xD800 <= n <= 0xDFFF:
+            return False
+        if 0xFDD0 <= n <= 0xFDEF or (n & 0xFFFE) == 0xFFFE:
+            return False
+        if n == 0x0D:
+            return False
+        if (n <= 0x1F or 0x7F <= n <= 0x9F) and n not in (0x09, 0x0A, 0x0C, 0x20):
+            return False
+        return True
+    vals = list(range(0, 0x30)) + list(range(0x7D, 0xA3)) + [0xD7FF, 0xD800, 0xDFFF, 0xE000, 0xFDCF, 0xFDD0, 0xFDEF, 0xFDF0, 0xFFFD,
+                                                              0xFFFE, 0xFFFF, 0x10000, 0x1FFFD, 0x1FFFE, 0x1FFFF, 0x20000, 0x10FFFD,
+                                                              0x10FFFE, 0x10FFFF, 0x110000]
+    vals += [ctx.rng.randrange(0x20, 0x110000) for _ in range(ctx.scale(150, 5000))]
+    for j, n in enumerate(vals):
+        ref = ("&#%d;" % n) if j % 3 == 0 else ("&#x%X;" % n) if j % 3 == 1 else ("&#x%x;" % n)
+        text = '<!DOCTYPE html><html><head><title>t</title></head><body><p title="%s">a%sb</p></body></html>' % (ref, ref)
+        p = html5lib.HTMLParser()
+        p.parse(text)
+        ctx.case("numeric-reference-conformance", text, nontrivial=True)
+        if ref_allowed(n) and p.errors:
+            ctx.fail("conforming-document-reports-error:%s" % p.errors[0][1], "a conforming document (allowed numeric reference) records a parse error",
+                     {"input": text, "errors": repr(p.errors[:3])})
+        if not ref_allowed(n) and not p.errors:
+            ctx.fail("non-conforming-reference-without-error", "a numeric reference the standard reports as an error records none",
+                     {"input": text})
+    from html5lib.constants import entities as _ents
+    for name in ctx.rng.sample(sorted(k for k in _ents if k.endswith(";")), ctx.scale(200, 2231)):
+        text = '<!DOCTYPE html><html><head><title>t</title></head><body><p title="x&%sy">a&%sb</p></body></html>' % (name, name)
+        p = html5lib.HTMLParser()
+        p.parse(text)
+        ctx.case("named-reference-conformance", text, nontrivial=True)
+        if p.errors:
+            ctx.fail("conforming-document-reports-error:%s" % p.errors[0][1], "a conforming document (named reference) records a parse error",
+                     {"input": text, "errors": repr(p.errors[:3])})
     # every tokenizer error site: short strings over the tokenizer alphabet, raw and inside a tag / attribute value
     import itertools
     alpha = ["<", ">", "/", "!", "-", "?", "=", '"', "'", "&", "#", ";", "x", "A", "0", " ", "\x00", "]"]
